@@ -27,7 +27,7 @@ verus! {
 //@struct gneiss-mqtt/src/mqtt/mod.rs PublishPacket clonespec defaultspec
 //@struct gneiss-mqtt/src/mqtt/mod.rs PubrecPacket defaultspec
 //@struct gneiss-mqtt/src/mqtt/mod.rs PubrelPacket defaultspec
-//@struct gneiss-mqtt/src/mqtt/mod.rs SubackPacket
+//@struct gneiss-mqtt/src/mqtt/mod.rs SubackPacket defaultspec
 //@struct gneiss-mqtt/src/mqtt/mod.rs SubscribePacket
 //@struct gneiss-mqtt/src/mqtt/mod.rs UnsubackPacket
 //@struct gneiss-mqtt/src/mqtt/mod.rs UnsubscribePacket
